@@ -476,7 +476,8 @@ def g_c14_files(tier, rnd):
             analysis = fresh(rnd.randint(0, 3), set())
             L = layout(version, oin, 'I', rnd.choice(BYTEORDS), [16, 8], None, rnd.choice(['last', 'onepast']), [[513, 7], [2, 255]],
                        delim=d, extra=extra, stext=stext, analysis=analysis, analysis_in=rnd.choice(['header', 'text', 'both']),
-                       stext_leading_delim=rnd.random() < 0.5, text_after_data=rnd.random() < 0.3, pad_data=rnd.choice([0, 2]))
+                       stext_leading_delim=rnd.random() < 0.5, text_after_data=rnd.random() < 0.3, pad_data=rnd.choice([0, 2]),
+                       analysis_leading_delim=rnd.random() < 0.6)
             yield 'C14.text', {'mode': 'file', 'layout': L}
 
 
